@@ -1238,6 +1238,7 @@ lyd_diff_apply_r(struct lyd_node **first_node, struct lyd_node *parent_node, con
     const char *str_val, *meta_str;
     enum lyd_diff_op op;
     struct lyd_meta *meta;
+    struct lyd_attr *attr;
     struct ly_ht *child_dup_inst = NULL;
     const struct ly_ctx *ctx = LYD_CTX(diff_node);
 
@@ -1395,6 +1396,14 @@ next_iter_r:
     /* apply diff recursively */
     ret = LY_SUCCESS;
     LY_LIST_FOR(lyd_child_no_keys(diff_node), diff_child) {
+        if ((op == LYD_DIFF_OP_REPLACE) && lysc_is_userordered(diff_node->schema)) {
+            /* descendants of a moved instance were copied only to identify it, they have no operation of their own */
+            lyd_diff_find_meta(diff_child, "operation", &meta, &attr);
+            if (!meta && !attr) {
+                continue;
+            }
+        }
+
         ret = lyd_diff_apply_r(lyd_node_child_p(match), match, diff_child, diff_cb, cb_data, &child_dup_inst);
         if (ret) {
             break;
